@@ -1061,6 +1061,14 @@ class Interp:
             return self._construct(f.cls, args, kwargs)
         if isinstance(f, Native):
             return f.fn(*args, **kwargs)
+        if f in (ast.unparse, ast.dump, ast.get_docstring, ast.literal_eval, ast.iter_child_nodes, ast.walk, ast.iter_fields) and all(
+                isinstance(a, (ast.AST, str, bool, int, type(None))) for a in [*args, *kwargs.values()]):
+            # pure functions of the stdlib over syntax-tree nodes handed in by a rule
+            try:
+                out = f(*args, **kwargs)
+            except (ValueError, SyntaxError, TypeError) as ex:
+                raise Raised(type(ex).__name__) from None
+            return list(out) if f in (ast.iter_child_nodes, ast.walk, ast.iter_fields) else out
         if isinstance(f, Partial):
             return self.apply(f.f, [*f.args, *args], {**f.kwargs, **kwargs}, site, env)
         if isinstance(f, tuple) and len(f) == 3 and f[0] == "native":
@@ -1248,6 +1256,10 @@ class Interp:
             from pathlib import PurePosixPath
 
             return PurePosixPath(*args)  # path *arithmetic* only: anything touching the file system goes through the virtual file system or is refused
+        if name == "pathlib.Path.cwd" and not args:
+            from pathlib import PurePosixPath
+
+            return PurePosixPath("/cwd")  # the virtual working directory: a constant, nothing on disk is consulted
         if name in ("collections.defaultdict", "defaultdict"):
             import collections
 
